@@ -270,16 +270,31 @@ func c07Child(scPath string) int {
 			pageURL = strings.Replace(pageURL, "pages.example/", fmt.Sprintf("pages.example/s%dd%d/", sc.Index, i), 1)
 		}
 		doc, refs := c07GenDoc(rng, tg, pageURL, sc)
-		seed, err := newSeed(fmt.Sprintf("p%d", i), pageURL, "", 0)
+		// the page may sit behind a chain of redirections (http -> https -> www -> /index.html ...): it is still "a page fetched with status 200"
+		nRedir := 0
+		if rng.Intn(3) == 0 {
+			nRedir = 1 + rng.Intn(4)
+		}
+		chain := []string{}
+		for k := 0; k < nRedir; k++ {
+			chain = append(chain, fmt.Sprintf("https://pages.example/go%d/s%dd%d", k, sc.Index, i))
+		}
+		chain = append(chain, pageURL)
+		seed, err := newSeed(fmt.Sprintf("p%d", i), chain[0], "", 0)
 		if err != nil {
 			continue
 		}
 		cr := h.crawl(seed, func(it *models.Item, wire string) *fakeResp {
-			if it.GetDepth() == 0 {
+			for k := 0; k < nRedir; k++ {
+				if wire == chain[k] {
+					return &fakeResp{Status: []int{301, 302, 307, 308}[k%4], Header: http.Header{"Location": {chain[k+1]}}}
+				}
+			}
+			if wire == pageURL {
 				return &fakeResp{Status: 200, Header: http.Header{"Content-Type": {"text/html; charset=utf-8"}}, Body: []byte(doc)}
 			}
 			return leafResp()
-		}, 8)
+		}, 12)
 		rep.Evaluations++
 		if cr.Err != "" || !cr.Finished {
 			rep.violation("harness/crawl", fmt.Sprintf("crawl error %q finished=%v", cr.Err, cr.Finished), map[string]any{"doc": doc})
@@ -303,6 +318,9 @@ func c07Child(scPath string) int {
 		}
 		for _, rf := range refs {
 			class := rf.Tag + "[" + rf.Attr + "]/" + rf.Form + "/" + rf.Quote
+			if nRedir > 0 {
+				class += fmt.Sprintf("/behind-%d-redirects", nRedir)
+			}
 			if rf.Anchor {
 				rep.event("planted_anchors", 1)
 				rep.distinct(class)
@@ -338,6 +356,9 @@ func c07Child(scPath string) int {
 				}
 			}
 			sig := fmt.Sprintf("requisite-not-fetched/%s[%s]/%s", rf.Tag, rf.Attr, rf.Form)
+			if nRedir > 0 && got == "" {
+				sig = fmt.Sprintf("requisite-not-fetched-behind-redirects/%d", nRedir)
+			}
 			if got != "" {
 				sig = fmt.Sprintf("requisite-misresolved/%s[%s]/%s", rf.Tag, rf.Attr, rf.Form)
 			}
